@@ -246,6 +246,7 @@ func lemmaFit(p *spec.LpPacket, mtu int, eff int) {}
 //@   assert before ReadWire@1 uses lemmaMulStep(nFragments-1, effectiveMtu) [stepn] nFragments*effectiveMtu == (nFragments-1)*effectiveMtu+effectiveMtu
 //@   assert before ReadWire@1 uses lemmaMulMono(i, nFragments-1, effectiveMtu) [lo] i <= nFragments-1 ==> 0 <= i*effectiveMtu && i*effectiveMtu <= (nFragments-1)*effectiveMtu
 //@   assert before ReadWire@1 uses lemmaMulMono(i+1, nFragments-1, effectiveMtu) [hi] i < nFragments-1 ==> (i+1)*effectiveMtu <= (nFragments-1)*effectiveMtu
+//@   assert before ReadWire@1 [size] (i < nFragments-1 ==> readSize == effectiveMtu) && (i == nFragments-1 ==> readSize == len(wire)-(nFragments-1)*effectiveMtu)
 //@   loop 1 invariant 0 <= i && i <= nFragments && len(fragments) == nFragments && fresh(fragments) && nFragments >= 2 && nFragments <= 8800
 //@   loop 1 invariant effectiveMtu == specEffMtu(l.transport.MTU(), l.options, out, congestionMarking) && 1 <= effectiveMtu && effectiveMtu <= 8800 && l.options.IsFragmentationEnabled && len(wire) > effectiveMtu
 //@   loop 1 invariant nFragments == specCeilDiv(len(wire), effectiveMtu) && (nFragments-1)*effectiveMtu < len(wire) && len(wire) <= nFragments*effectiveMtu
